@@ -35,6 +35,23 @@ def sh(cmd, env=None, cwd=None, timeout=3600):
     return p.returncode, p.stdout.decode('utf-8', 'replace')
 
 
+def key_counts(out):
+    """{violation key: times seen} from a check's output."""
+    res = {}
+    cur = None
+    for line in out.splitlines():
+        m = re.match(r'^  key: (.*)$', line)
+        if m:
+            cur = m.group(1)
+            res[cur] = 1
+            continue
+        m = re.search(r'\(seen (\d+) times\)\s*$', line)
+        if m and cur:
+            res[cur] = int(m.group(1))
+            cur = None
+    return res
+
+
 def baseline_keys(base, props, tier):
     """Violation keys of the checks on the unpatched tree of an old commit
     (cached in .work/)."""
@@ -47,7 +64,7 @@ def baseline_keys(base, props, tier):
     out = {}
     wt = None
     for p in props:
-        k = '%s %s %s %s' % (base, p, tier, vh)
+        k = 'counts %s %s %s %s' % (base, p, tier, vh)
         if k not in data:
             if wt is None:
                 wt = '/tmp/wt/base_%s_%d' % (base, os.getpid())
@@ -56,7 +73,7 @@ def baseline_keys(base, props, tier):
             rc, o = sh([PY, os.path.join(VERIF, 'vcheck.py'), '--property',
                         p, '--tier', tier], env={'VERIF_REPO': wt},
                        cwd=VERIF, timeout=7200)
-            data[k] = re.findall(r'^  key: (.*)$', o, re.M)
+            data[k] = key_counts(o)
             os.makedirs(os.path.dirname(cache), exist_ok=True)
             json.dump(data, open(cache, 'w'), indent=1)
         out[p] = data[k]
@@ -156,7 +173,14 @@ def main():
                          cwd=VERIF, timeout=7200)
             keys = re.findall(r'^  key: (.*)$', out, re.M)
             if base_keys.get(p):
-                keys = [k for k in keys if k not in base_keys[p]]
+                # a key the unpatched old tree produces too counts only if
+                # the change makes it fire much more often
+                bc = base_keys[p]
+                if isinstance(bc, list):
+                    bc = {k: 10 ** 9 for k in bc}
+                pc = key_counts(out)
+                keys = [k for k in keys if k not in bc
+                        or pc.get(k, 0) >= 2 * bc[k] + 5]
             meta['checks'][p] = {
                 'tier': a.tier, 'exit': rc, 'violation_keys': keys[:12],
                 'wall_s': round(time.time() - t0, 1),
